@@ -487,6 +487,30 @@ def oracle(case, ir, drv=None, max_k=3):
         if e > V_slp + 2 * tol:
             viol.append({'oracle': 'ev_le_slp', 'detail': 'fixing the present to the optimum of scenario %d gives mean value %.8g > SLP optimum %.8g (tolerance %.2g)' % (k, e, V_slp, 2 * tol), 'facts': dict(facts_s, kind='eev', k=k)})
     obs['EEV'] = eev
+    # the same lower bound computed the way a user of the package would: the present fixed through fix_time_window
+    # (index mask of the present steps, values of the scenario-0 optimum), one problem per scenario with its own prices
+    try:
+        if case.get('how') in ('perturb', 'identical') and first_f > 0 and eev and eev[0] is not None:
+            win = np.zeros(tg.T, dtype=bool)
+            win[:first_f] = True
+            vals = []
+            for s_i in range(nS + 1):
+                pr = rec['prices'] if s_i == 0 else {k: np.asarray(v, dtype=float) for k, v in case['samples'][s_i - 1].items()}
+                with Quiet():
+                    opf = portf.setup_optim_problem(pr, tg, fix_time_window={'I': win.copy(), 'x': np.array(det[0].x, dtype=float)})
+                rf = _solve(opf)
+                vals.append(None if isinstance(rf, str) else float(rf.value))
+            if all(v is not None for v in vals):
+                e_lib = float(np.mean(vals))
+                obs['EEV_via_fix_time_window'] = e_lib
+                if not len(rowless) and abs(e_lib - eev[0]) > 2 * tol + 1e-6 * scale:
+                    viol.append({'oracle': 'ev_le_slp', 'detail': 'fixing the present steps to the optimum of scenario 0 through fix_time_window gives mean value %.8g, fixing the present VARIABLES (all of which have a mapping row at a present step) by bounds gives %.8g' % (
+                        e_lib, eev[0]), 'facts': dict(facts_s, kind='eev_fix_time_window_differs')})
+                elif e_lib > V_slp + 2 * tol + 1e-6 * scale:
+                    viol.append({'oracle': 'ev_le_slp', 'detail': 'fixing the present steps to the optimum of scenario 0 through fix_time_window gives mean value %.8g > SLP optimum %.8g (own bounds on the present variables: %.8g)' % (
+                        e_lib, V_slp, eev[0]), 'facts': dict(facts_s, kind='eev_fix_time_window')})
+    except Exception as e:
+        obs['EEV_via_fix_time_window'] = 'error: %s' % type(e).__name__
     obs['chain_strict'] = bool(eev and eev[0] is not None and (V_slp - eev[0] > 10 * tol or WS - V_slp > 10 * tol))
     # ---- read-out of the SLP result (also with several mapping rows per variable and row-less variables)
     multi = info['multi_row']
